@@ -9,6 +9,8 @@ package storage
 
 import (
 	"bytes"
+	"crypto/sha256"
+	"encoding/hex"
 	"encoding/json"
 	"errors"
 	"fmt"
@@ -496,7 +498,7 @@ func c17RunPath(dir string, cfg c17cfg, ops []sop, observeAll bool) (*mstate, st
 
 func c17List(tier string) []vh.Scenario {
 	if tier == "thorough" {
-		return []vh.Scenario{{Name: "parts=3,bytes=4,readers=1", Weight: 100}, {Name: "parts=2,bytes=3,readers=2", Weight: 100}, {Name: "parts=4,bytes=4,readers=1", Weight: 100}, {Name: "parts=2,bytes=5,readers=1", Weight: 50}}
+		return []vh.Scenario{{Name: "parts=3,bytes=4,readers=1", Weight: 100}, {Name: "parts=2,bytes=3,readers=2", Weight: 100}, {Name: "parts=4,bytes=3,readers=1", Weight: 100}, {Name: "parts=2,bytes=5,readers=1", Weight: 50}}
 	}
 	return []vh.Scenario{{Name: "parts=3,bytes=3,readers=1", Weight: 50}, {Name: "parts=2,bytes=2,readers=2", Weight: 50}}
 }
@@ -538,9 +540,17 @@ func c17Run(c *vh.Ctx) {
 		path []sop
 		st   *mstate
 	}
-	visited := map[string]struct{}{}
+	// visited states are kept as 128-bit hashes of their canonical keys (millions of states in the thorough tier)
+	type hkey [16]byte
+	hashOf := func(k string) hkey {
+		h := sha256.Sum256([]byte(k))
+		var out hkey
+		copy(out[:], h[:16])
+		return out
+	}
+	visited := map[hkey]struct{}{}
 	init := &mstate{}
-	visited[init.key()] = struct{}{}
+	visited[hashOf(init.key())] = struct{}{}
 	frontier := []node{{st: init}}
 	var states, transitions int64 = 1, 0
 	depth := 0
@@ -581,10 +591,11 @@ func c17Run(c *vh.Ctx) {
 							continue
 						}
 						k := m.key()
-						if _, ok := visited[k]; !ok {
-							visited[k] = struct{}{}
+						hk := hashOf(k)
+						if _, ok := visited[hk]; !ok {
+							visited[hk] = struct{}{}
 							states++
-							c.Outcome(k)
+							c.Outcome(hex.EncodeToString(hk[:8]))
 							next = append(next, node{path: path, st: m})
 							if c.WantSample() && len(path) >= 6 {
 								c.Sample(map[string]any{"ops": fmt.Sprint(path), "state": k})
